@@ -413,7 +413,10 @@ def storeDeals (i : Inst F K) : List (Int × String × Option (OuterDeal F)) →
     if pid = (i.pid : Int) then storeDeals i rest else
     match d with
     | none => (i, false)
-    | some od => storeDeals { i with deals := put name od i.deals } rest
+    | some od =>
+      -- a deal is its sender's (fix 9d113d5): one naming another dealer is refused before it is filed
+      if (od.idx : Int) ≠ pid then (i, false) else
+      storeDeals { i with deals := put name od i.deals } rest
 
 /-- `handleStateDkgResponsesAwaitConfirmations`; `ord`: the order in which Go ranges over `d.deals` -/
 def responsesOp (m : Machine F K) (round : String) (entries : List (Int × String × Option (OuterDeal F))) (ord : List String) :
